@@ -99,6 +99,14 @@ CATALOGUE = [
     ("revchain-coverage-not-remapped", "subset/__init__.py", "        self.Substitute = _list_subset(self.Substitute, indices)\n        self.Coverage.remap(indices)", "        self.Substitute = _list_subset(self.Substitute, indices)", "C07", "ReverseChainSingleSubstSubset", "alarm"),
     ("merge-curves-handle-flipped", "qu2cu/qu2cu.py", "    p2 = p3 + (p2 - p3) / ((1 - ts[-1]) if ts else 1)", "    p2 = p3 - (p2 - p3) / ((1 - ts[-1]) if ts else 1)", "C13", "MergeCurves", "alarm"),
     ("elevate-wrong-third", "qu2cu/qu2cu.py", "        (p2 * (1 / 3) + p1_2_3),", "        (p2 * (2 / 3) + p1_2_3),", "C13", "ElevateQuadratic", "alarm"),
+    ("split-new-subtable-appended", "ttLib/tables/otTables.py", "        lookup.SubTable.insert(subIndex + 1, toInsert)", "        lookup.SubTable.append(toInsert)", "C06", "FixSubTableOverFlows", "alarm"),
+    ("split-pairpos-class-renumber", "ttLib/tables/otTables.py", "            k: (v - oldCount) for k, v in classDefs.items() if v > oldCount", "            k: (v - oldCount) for k, v in classDefs.items() if v >= oldCount + 2", "C06", "SplitPairPosFormat2", "alarm"),
+    ("split-markbase-class-shift", "ttLib/tables/otTables.py", "            markRecord.Class -= oldClassCount", "            markRecord.Class -= newClassCount", "C06", "SplitMarkBasePos", "alarm"),
+    ("sharing-across-extension", "ttLib/tables/otBase.py", "        if isExtension and not shareExtension:\n            internedTables = {}", "        if isExtension and shareExtension:\n            internedTables = {}", "C06", "WriterDoneWriting", "alarm"),
+    ("area-cubic-constant", "pens/areaPen.py", "x3 * (y1 + 2 * y2)) * 0.15", "x3 * (y1 + 2 * y2)) * 0.16", "C14", "AreaPenValue", "alarm"),
+    ("transform-pen-skips-lineto", "pens/transformPen.py", "    def lineTo(self, pt):\n        self._outPen.lineTo(self._transformPoint(pt))", "    def lineTo(self, pt):\n        self._outPen.lineTo(pt)", "C14", "TransformAndRoundingPens", "alarm"),
+    ("point-pen-rotation", "pens/pointPen.py", "                points = points[firstOnCurve + 1 :] + points[: firstOnCurve + 1]", "                points = points[firstOnCurve:] + points[:firstOnCurve]", "C14", "SegmentPointRoundTrip", "alarm"),
+    ("quadratic-bounds-root-sign", "misc/bezierTools.py", "        roots.append(-by / ay2)", "        roots.append(by / ay2)", "C14", "QuadraticBounds", "alarm"),
 ]
 
 
